@@ -147,6 +147,9 @@ def generate(streams: core.Streams, tier: str) -> dict:
     sc["passes"] = 2 if gen.chance(s, 0.2) else 1
     # ... the first time without the injected faults, so that rules fail only in the pass that is judged
     sc["first_pass_clean"] = sc["passes"] == 2 and gen.chance(s, 0.5)
+    # a collection 'action: global' document in front of the rules: its values (here the field list) are
+    # merged into every rule that follows, in the batch as well as when a rule is loaded alone
+    sc["global_doc"] = {"action": "global", "fields": ["gf1", "gf2"]} if gen.chance(w, 0.15) else None
     return sc
 
 
@@ -165,7 +168,8 @@ def _backend(sc: dict, collect: bool) -> Any:
 def _load(sc: dict, docs: list[dict], corrs: list[dict] | None = None) -> Any:
     from sigsim import world
 
-    coll = world.load_collection(list(sc.get("filters", [])) + docs + list(corrs or []))
+    glob = [sc["global_doc"]] if sc.get("global_doc") else []
+    coll = world.load_collection(list(sc.get("filters", [])) + glob + docs + list(corrs or []))
     for r in coll.rules:
         if r.title in sc.get("disabled", []):
             r.disable_output()
@@ -346,6 +350,8 @@ def execute(scenario: dict) -> dict:
             probes["failing_rule_middle"] = 1
     if int(sc.get("passes", 1)) > 1:
         probes["collection_converted_twice_by_same_backend"] = 1
+    if sc.get("global_doc"):
+        probes["with_global_action_document"] = 1
     if corrs:
         probes["with_correlation_rules"] = 1
     if sc_eff.get("filters"):
@@ -547,6 +553,10 @@ def shrink(sc: dict) -> Iterable[dict]:
                     c = copy.deepcopy(sc)
                     del c["pipeline"]["transformations"][j][k]
                     yield c
+    if sc.get("global_doc"):
+        c = copy.deepcopy(sc)
+        c["global_doc"] = None
+        yield c
     if int(sc.get("passes", 1)) > 1:
         c = copy.deepcopy(sc)
         c["passes"] = 1
